@@ -26,7 +26,7 @@ func init() {
 	})
 	mutant(&Mutant{Name: "c12-gathering-writer-lets-large-chunks-overtake", Property: "C12", File: "minify.go",
 		Old: "type writer struct {\n\tio.WriteCloser\n", New: "type writer struct {\n\tio.WriteCloser\n\tbuf    []byte\n",
-		Old2: "// Close must be called when writing has finished. It returns the error from the minifier.\n", New2: "func (z *writer) Write(b []byte) (int, error) {\n\tif 4096 <= len(b) {\n\t\treturn z.WriteCloser.Write(b)\n\t}\n\tif cap(z.buf) < len(z.buf)+len(b) {\n\t\tif _, err := z.WriteCloser.Write(z.buf); err != nil {\n\t\t\treturn 0, err\n\t\t}\n\t\tz.buf = z.buf[:0]\n\t}\n\tz.buf = append(z.buf, b...)\n\treturn len(b), nil\n}\n\n// Close must be called when writing has finished. It returns the error from the minifier.\n",
+		Old2: "// Close must be called when writing has finished. It returns the error from the minifier.\nfunc (z *writer) Close() error {\n", New2: "func (z *writer) Write(b []byte) (int, error) {\n\tif 4096 <= len(b) {\n\t\treturn z.WriteCloser.Write(b)\n\t}\n\tif cap(z.buf) < len(z.buf)+len(b) {\n\t\tif _, err := z.WriteCloser.Write(z.buf); err != nil {\n\t\t\treturn 0, err\n\t\t}\n\t\tz.buf = z.buf[:0]\n\t}\n\tz.buf = append(z.buf, b...)\n\treturn len(b), nil\n}\n\n// Close must be called when writing has finished. It returns the error from the minifier.\nfunc (z *writer) Close() error {\n",
 		More: [][2]string{{"\tz := &writer{pw, sync.WaitGroup{}, false, nil}\n\tz.wg.Add(1)\n\tgo func() {\n\t\tdefer z.wg.Done()\n\t\tdefer pr.Close()\n\t\tif err := m.Minify(", "\tz := &writer{pw, nil, sync.WaitGroup{}, false, nil}\n\tz.wg.Add(1)\n\tgo func() {\n\t\tdefer z.wg.Done()\n\t\tdefer pr.Close()\n\t\tif err := m.Minify("}, {"\t\t\tz := &writer{pw, sync.WaitGroup{}, false, nil}\n", "\t\t\tz := &writer{pw, nil, sync.WaitGroup{}, false, nil}\n"}},
 		Rule: "R12.6", Construct: "writer.Write/pass-through"})
 	mutant(&Mutant{Name: "c12-extension-from-request-uri", Property: "C12", File: "minify.go",
